@@ -12,18 +12,15 @@ package main
 
 import (
 	"bytes"
-	"context"
 	"fmt"
 	"os"
+	"runtime"
 	"strings"
-	"sync"
-	"sync/atomic"
 	"time"
 
 	proto "github.com/kubewharf/kubebrain-client/api/v2rpc"
 
 	"github.com/kubewharf/kubebrain/pkg/backend"
-	"github.com/kubewharf/kubebrain/pkg/metrics"
 
 	"kbverif/lib"
 )
@@ -179,346 +176,107 @@ func runCase(pa string, l int, c0 uint64, s *script) string {
 
 const realParams = "real_params"
 
-// ---------------------------------------------------------------- (a) ring alone
 
-func ringCase(w *lib.Writer, l int, revs []uint64, S uint64, kind string) {
-	r := backend.NewRing(l)
-	for _, rv := range revs {
-		r.Add(&proto.Event{Type: proto.Event_PUT, Revision: rv, Kv: &proto.KeyValue{Revision: rv}})
-	}
-	obsStr, outcome := func() (o string, oc string) {
-		defer func() {
-			if rec := recover(); rec != nil {
-				o, oc = "ROPanic", "panic"
-			}
-		}()
-		ret := r.VerifFind(S)
-		switch {
-		case ret.Empty:
-			return "ROEmpty", "empty"
-		case ret.High:
-			return lib.App("ROHigh", lib.N(ret.Newest.Revision), lib.N(ret.Oldest.Revision)), "high"
-		case ret.Low:
-			return lib.App("ROLow", lib.N(ret.Newest.Revision), lib.N(ret.Oldest.Revision)), "low"
+// waitUntil polls cond: spinning (with Gosched) for the first 300µs, then sleeping 100µs between polls.
+func waitUntil(d time.Duration, cond func() bool) bool {
+	start := time.Now()
+	for i := 0; ; i++ {
+		if cond() {
+			return true
 		}
-		xs := make([]string, len(ret.Events))
-		for i, e := range ret.Events {
-			if e == nil {
-				xs[i] = "None"
-			} else {
-				xs[i] = lib.Some(lib.N(e.Revision))
-			}
+		el := time.Since(start)
+		if el > d {
+			return false
 		}
-		return lib.App("ROEvents", lib.N(ret.Newest.Revision), lib.N(ret.Oldest.Revision), lib.List(xs)), "events"
-	}()
-	rs := make([]string, len(revs))
-	for i, rv := range revs {
-		rs[i] = lib.N(rv)
-	}
-	w.Add(lib.Case{Kind: kind, Coq: lib.App("KRing", lib.N(uint64(l)), lib.List(rs), lib.N(S), obsStr),
-		JSON:    map[string]interface{}{"op": "ring", "l": l, "revs": revs, "S": S, "obs": obsStr},
-		Trivial: len(revs) == 0, Outcomes: []string{"ring:" + outcome}})
-}
-
-func ringCases(w *lib.Writer, rnd *lib.Rand, tier string) {
-	// exhaustive: l <= 4, e <= 3l, revision gaps alternate 1,2 (so that S can fall between two events)
-	for l := 1; l <= 4; l++ {
-		for e := 0; e <= 3*l; e++ {
-			revs := make([]uint64, e)
-			cur := uint64(10)
-			for i := range revs {
-				cur += uint64(1 + (i+l)%2)
-				revs[i] = cur
-			}
-			lo, hi := uint64(9), cur+2
-			for S := lo; S <= hi; S++ {
-				ringCase(w, l, revs, S, "ring-exhaustive")
-			}
-			ringCase(w, l, revs, 0, "ring-exhaustive")
-		}
-	}
-	n := 150
-	if tier != "quick" {
-		n = 3000
-	}
-	for i := 0; i < n; i++ {
-		l := 1 + rnd.Intn(9)
-		e := rnd.Intn(4*l + 2)
-		revs := make([]uint64, e)
-		cur := uint64(rnd.Intn(5))
-		for j := range revs {
-			cur += uint64(1 + rnd.Intn(3))
-			revs[j] = cur
-		}
-		S := uint64(rnd.Intn(int(cur) + 4))
-		ringCase(w, l, revs, S, "ring-random")
-	}
-}
-
-// ---------------------------------------------------------------- metrics hook shared by (b) and (c)
-
-type hooks struct {
-	mu           sync.Mutex
-	drops        int32
-	parkDeleters int32 // when set, goroutines entering DeleteWatcher (other than exempt ones) park
-	parked       int32
-	release      chan struct{}
-	exempt       sync.Map // goroutine ids that are never parked (the driver's own barrier calls)
-}
-
-func newHooks() *hooks { return &hooks{release: make(chan struct{})} }
-
-func (h *hooks) metric(kind, name string, tags []metrics.T) {
-	switch name {
-	case "drop.slow.watcher":
-		atomic.AddInt32(&h.drops, 1)
-	case "watcher_hub.delete_watcher":
-		if atomic.LoadInt32(&h.parkDeleters) == 1 {
-			if _, ok := h.exempt.Load(lib.GoID()); ok {
-				return
-			}
-			h.mu.Lock()
-			rel := h.release
-			h.mu.Unlock()
-			atomic.AddInt32(&h.parked, 1)
-			<-rel
-		}
-	}
-}
-func (h *hooks) releaseDeleters() {
-	atomic.StoreInt32(&h.parkDeleters, 0)
-	h.mu.Lock()
-	close(h.release)
-	h.release = make(chan struct{})
-	h.mu.Unlock()
-	atomic.StoreInt32(&h.parked, 0)
-}
-
-// ---------------------------------------------------------------- (b) hub alone
-
-type hubSub struct {
-	ch     <-chan []*proto.Event
-	cancel context.CancelFunc
-	got    []ev
-	closed bool
-}
-
-type hubRig struct {
-	hub   *backend.WatcherHub
-	in    chan []*proto.Event
-	hk    *hooks
-	subs  []*hubSub
-	nreg  int // registered, as the driver believes
-	sc    *script
-	rev   uint64
-	fail  string
-}
-
-func newHubRig(c0 uint64) *hubRig {
-	hk := newHooks()
-	hk.exempt.Store(lib.GoID(), true)
-	m := &lib.NopMetrics{Hook: hk.metric}
-	r := &hubRig{hub: backend.VerifNewWatcherHub(m), in: make(chan []*proto.Event), hk: hk, sc: &script{}, rev: c0}
-	go r.hub.Stream(r.in)
-	return r
-}
-
-// barrier: DeleteWatcher on an unknown channel takes the hub's write lock and changes nothing.
-func (r *hubRig) barrier() { r.hub.DeleteWatcher(make(chan []*proto.Event), true) }
-
-func (r *hubRig) add() int {
-	ctx, cancel := context.WithCancel(context.Background())
-	ch, _ := r.hub.AddWatcher(ctx)
-	r.subs = append(r.subs, &hubSub{ch: ch, cancel: cancel})
-	r.nreg++
-	r.sc.labs(lSub(0, nil), lW("LWatchSpawn", len(r.subs)-1))
-	r.sc.note("add w%d", len(r.subs)-1)
-	return len(r.subs) - 1
-}
-
-func (r *hubRig) totalLen() int {
-	t := 0
-	for _, s := range r.subs {
-		t += len(s.ch)
-	}
-	return t
-}
-
-// item sends one single-event batch and waits until the hub has offered it to every registered subscriber.
-// registered = the number of subscribers in the hub's map right now.
-func (r *hubRig) item(registered int, emit bool) uint64 {
-	r.rev++
-	e := &proto.Event{Type: proto.Event_PUT, Revision: r.rev, Kv: &proto.KeyValue{Key: []byte("/h/k"), Value: []byte("v"), Revision: r.rev}}
-	before := r.totalLen() + int(atomic.LoadInt32(&r.hk.drops))
-	r.in <- []*proto.Event{e}
-	if !lib.WaitUntil(5*time.Second, func() bool {
-		return r.totalLen()+int(atomic.LoadInt32(&r.hk.drops)) >= before+registered
-	}) {
-		r.fail = fmt.Sprintf("hub did not fan out item rev %d to %d subscribers within 5s", r.rev, registered)
-	}
-	if atomic.LoadInt32(&r.hk.parkDeleters) == 0 {
-		r.barrier()
-	}
-	if emit {
-		r.sc.labs(lTake(slot{rev: r.rev, prev: r.rev - 1, valid: true, verb: 1, key: []byte("/h/k"), val: []byte("v")}), "LSeqCache", "LSeqSend", lHubItem())
-	}
-	return r.rev
-}
-
-// drain reads up to k batches that are already buffered (never blocks); model: k x (recv, send, consume)
-func (r *hubRig) drain(w, k int) {
-	s := r.subs[w]
-	n := 0
-	for n < k {
-		select {
-		case b, ok := <-s.ch:
-			if !ok {
-				s.closed = true
-				r.sc.labs(lW("LProc", w), lW("LConsume", w))
-				r.sc.note("w%d sees close", w)
-				return
-			}
-			for _, e := range b {
-				s.got = append(s.got, fromProto(e))
-			}
-			r.sc.labs(lW("LProc", w), lW("LProc", w), lW("LConsume", w))
-			n++
-		default:
-			return
-		}
-	}
-}
-
-func (r *hubRig) observe(w int, quiet bool) {
-	s := r.subs[w]
-	o := obs{w: w, got: s.got, hasGot: true, closed: bp(s.closed), quiet: quiet}
-	if !s.closed {
-		o.sublen = u64(uint64(len(s.ch)))
-	}
-	r.sc.obs(o)
-}
-
-func hubCases(w *lib.Writer, rnd *lib.Rand, tier string) {
-	hb := backend.VerifWatchBuffer
-	key, val := []byte("/h/k"), []byte("v")
-	// H1 (finding C05-F1) and H2 (deleter runs at once): a subscriber that stops reading
-	for variant := 0; variant < 2; variant++ {
-		r := newHubRig(100)
-		slow := r.add()
-		fast := r.add()
-		// fill the slow subscriber's buffer; the fast one reads along
-		r0 := r.rev + 1
-		for i := 0; i < hb; i++ {
-			r.item(2, false)
-			for len(r.subs[fast].ch) > 0 {
-				b := <-r.subs[fast].ch
-				r.subs[fast].got = append(r.subs[fast].got, fromProto(b[0]))
-			}
-		}
-		r.sc.bulk(r0, uint64(hb), key, val, []string{lHubItem(), lW("LProc", fast), lW("LProc", fast), lW("LConsume", fast)})
-		r.observe(slow, false)
-		r.observe(fast, true)
-		if variant == 0 {
-			atomic.StoreInt32(&r.hk.parkDeleters, 1)
-		}
-		r.item(2, true) // dropped for `slow`
-		r.drain(fast, 1)
-		if variant == 0 {
-			lib.WaitUntil(5*time.Second, func() bool { return atomic.LoadInt32(&r.hk.parked) == 1 })
-			r.sc.drops(int(atomic.LoadInt32(&r.hk.drops)))
-			r.sc.subs(r.hub.VerifSubs())
-			r.observe(slow, false)
-			r.drain(slow, 1) // the consumer takes one batch: there is room again
-			r.item(2, true)  // accepted although the previous batch was dropped
-			r.drain(fast, 1)
-			r.observe(slow, false)
-			r.hk.releaseDeleters()
-			lib.WaitUntil(5*time.Second, func() bool { return r.hub.VerifSubs() == 1 })
-			r.sc.lab(lW("LHubDelete", slow))
-			r.sc.subs(r.hub.VerifSubs())
+		if el < 300*time.Microsecond {
+			runtime.Gosched()
 		} else {
-			lib.WaitUntil(5*time.Second, func() bool { return r.hub.VerifSubs() == 1 })
-			r.sc.lab(lW("LHubDelete", slow))
-			r.sc.drops(int(atomic.LoadInt32(&r.hk.drops)))
-			r.sc.subs(r.hub.VerifSubs())
-			r.drain(slow, 1)
-			r.item(1, true)
-			r.drain(fast, 1)
+			time.Sleep(100 * time.Microsecond)
 		}
-		r.drain(slow, hb+5)
-		r.observe(slow, false)
-		r.observe(fast, true)
-		name := "hub-overflow-async-delete"
-		if variant == 1 {
-			name = "hub-overflow-prompt-delete"
+	}
+}
+
+// ---------------------------------------------------------------- case collection and main
+
+// coll buffers cases so that the four heavy ones (10000-batch overflows) can be spread over the shards.
+type coll struct {
+	cases []lib.Case
+	fails []lib.ImplFailure
+}
+
+func (c *coll) Add(x lib.Case)         { c.cases = append(c.cases, x) }
+func (c *coll) Len() int               { return len(c.cases) }
+func (c *coll) Fail(f lib.ImplFailure) { c.fails = append(c.fails, f) }
+
+const perShard = 120
+
+func main() {
+	lib.QuietLogs()
+	args := lib.ParseArgs()
+	rnd := lib.NewRand(args.Seed)
+	backend.VerifYieldHook = yieldHook
+	w := lib.NewWriter(args, "C05", "c05", "From KB Require Import Model.C05Cases.", "c05_case", "c05_check", "c05_oracle", perShard)
+	scratch := args.Scratch
+
+	heavy := &coll{}
+	light := &coll{}
+	// fixed corpus first
+	hubCorpus(heavy)
+	bkOverflow(heavy, scratch, true)
+	bkOverflow(heavy, scratch, false)
+	ringCases(light, rnd.Fork(), args.Tier)
+	hubCases(light, rnd.Fork(), args.Tier)
+	nb := 10
+	if args.Tier == "thorough" {
+		nb = 60
+	} else if args.Tier == "search" {
+		nb = 30
+	}
+	br := rnd.Fork()
+	seq := 0
+	for i := 0; i < nb; i++ {
+		for _, l := range []int{1, 2, 3, 5, 8} {
+			bkScenario(light, br, l, scratch, 3, seq)
+			seq++
 		}
-		close(r.in)
-		finishHub(w, r, name)
 	}
-	n := 40
-	if tier != "quick" {
-		n = 600
-	}
-	for i := 0; i < n; i++ {
-		r := newHubRig(uint64(50 + rnd.Intn(50)))
-		steps := 6 + rnd.Intn(20)
-		reg := map[int]bool{}
-		for st := 0; st < steps; st++ {
-			switch c := rnd.Intn(10); {
-			case c < 2 && len(r.subs) < 4:
-				reg[r.add()] = true
-			case c < 6:
-				r.item(len(reg), true)
-			case c < 8 && len(r.subs) > 0:
-				r.drain(rnd.Intn(len(r.subs)), 1+rnd.Intn(3))
-			case c == 8 && len(r.subs) > 0:
-				x := rnd.Intn(len(r.subs))
-				r.subs[x].cancel()
-				r.sc.lab(lW("LCancel", x))
-				if reg[x] {
-					lib.WaitUntil(5*time.Second, func() bool { return r.hub.VerifSubs() == len(reg)-1 })
-					delete(reg, x)
-				} else {
-					time.Sleep(200 * time.Microsecond)
-				}
-				r.sc.lab(lW("LCtxDelete", x))
-				r.sc.subs(r.hub.VerifSubs())
-			default:
-				if len(r.subs) > 0 {
-					r.observe(rnd.Intn(len(r.subs)), false)
-				}
+	// heavy cases go to positions 0, perShard, 2*perShard, ...
+	order := []lib.Case{}
+	failAt := map[int][]lib.ImplFailure{}
+	hi, li := 0, 0
+	put := func(c *coll, idx int) {
+		for _, f := range c.fails {
+			if f.CaseID == idx {
+				failAt[len(order)] = append(failAt[len(order)], f)
 			}
 		}
-		for x := range r.subs {
-			r.drain(x, 1000)
-			r.observe(x, true)
+		order = append(order, c.cases[idx])
+	}
+	for hi < len(heavy.cases) || li < len(light.cases) {
+		if hi < len(heavy.cases) && (len(order)%perShard == 0 || li >= len(light.cases)) {
+			put(heavy, hi)
+			hi++
+		} else {
+			put(light, li)
+			li++
 		}
-		r.sc.subs(r.hub.VerifSubs())
-		r.sc.drops(int(atomic.LoadInt32(&r.hk.drops)))
-		for _, s := range r.subs {
-			s.cancel()
+	}
+	for i, c := range order {
+		w.Add(c)
+		for _, f := range failAt[i] {
+			f.CaseID = i
+			w.Fail(f)
 		}
-		close(r.in)
-		finishHub(w, r, "hub-script")
 	}
-}
-
-func finishHub(w *lib.Writer, r *hubRig, kind string) {
-	c := lib.Case{Kind: kind, Coq: runCase(realParams, 4, 100-100+r0of(r), r.sc),
-		JSON:     map[string]interface{}{"op": kind, "script": r.sc.human},
-		Trivial:  r.sc.nlab < 6,
-		Outcomes: []string{kind}}
-	if atomic.LoadInt32(&r.hk.drops) > 0 {
-		c.Outcomes = append(c.Outcomes, "slow-subscriber-dropped")
+	for _, c := range []*coll{heavy, light} {
+		for _, f := range c.fails {
+			if f.CaseID < 0 {
+				w.Fail(f)
+			}
+		}
 	}
-	w.Add(c)
-	if r.fail != "" {
-		w.Fail(lib.ImplFailure{CaseID: w.Len() - 1, What: r.fail, Case: c.JSON})
+	if err := w.Finish("trivial = ring with no event / hub script with < 6 labels / backend run with no successful write or no watcher besides the monitor"); err != nil {
+		fmt.Fprintln(os.Stderr, err)
+		os.Exit(2)
 	}
-}
-
-func r0of(r *hubRig) uint64 { return r.c0() }
-func (r *hubRig) c0() uint64 {
-	// initial committed revision of the model = the revision before the first item
-	return r.first
 }
